@@ -5,18 +5,21 @@ R(h, ty) == [h |-> h, ty |-> ty]
 Stop(h) == [op |-> "stop", h |-> h, ty |-> ""]
 Close == [op |-> "close", h |-> 0, ty |-> ""]
 Feed(h, ty) == [op |-> "feed", h |-> h, ty |-> ty]
-ScA == [subs |-> <<"stream">>, pre |-> <<R(1, "rec"), R(1, "rec")>>, prog |-> << <<Stop(1)>>, <<Close>> >>]
-ScB == [subs |-> <<"monitor">>, pre |-> <<R(1, "rec")>>, prog |-> << <<Stop(1), Feed(1, "rec")>>, <<Stop(1)>> >>]
-ScC == [subs |-> <<"query">>, pre |-> <<R(1, "ack"), R(1, "resp"), R(1, "done")>>, prog |-> << <<Close>> >>]
-ScD == [subs |-> <<"query">>, pre |-> <<R(1, "ack")>>, prog |-> << <<Feed(1, "resp"), Feed(1, "done")>>, <<Close>> >>]
-ScE == [subs |-> <<"stream", "query">>, pre |-> <<R(1, "rec"), R(2, "resp"), R(2, "done")>>, prog |-> << <<Stop(1)>>, <<Close>> >>]
-ScF == [subs |-> <<"stream">>, pre |-> <<>>, prog |-> << <<Stop(1)>>, <<Feed(1, "rec"), Close>> >>]
-ScG == [subs |-> <<"stream", "monitor">>, pre |-> <<R(1, "rec"), R(2, "rec")>>, prog |-> << <<Stop(1), Stop(2)>>, <<Close, Close>> >>]
+ScA == [subs |-> <<"stream">>, pre |-> <<R(1, "rec"), R(1, "rec")>>, prog |-> << <<Stop(1)>>, <<Close>> >>, fx |-> FALSE]
+ScB == [subs |-> <<"monitor">>, pre |-> <<R(1, "rec")>>, prog |-> << <<Stop(1), Feed(1, "rec")>>, <<Stop(1)>> >>, fx |-> FALSE]
+ScC == [subs |-> <<"query">>, pre |-> <<R(1, "ack"), R(1, "resp"), R(1, "done")>>, prog |-> << <<Close>> >>, fx |-> FALSE]
+ScD == [subs |-> <<"query">>, pre |-> <<R(1, "ack")>>, prog |-> << <<Feed(1, "resp"), Feed(1, "done")>>, <<Close>> >>, fx |-> FALSE]
+ScE == [subs |-> <<"stream", "query">>, pre |-> <<R(1, "rec"), R(2, "resp"), R(2, "done")>>, prog |-> << <<Stop(1)>>, <<Close>> >>, fx |-> FALSE]
+ScF == [subs |-> <<"stream">>, pre |-> <<>>, prog |-> << <<Stop(1)>>, <<Feed(1, "rec"), Close>> >>, fx |-> FALSE]
+ScG == [subs |-> <<"stream", "monitor">>, pre |-> <<R(1, "rec"), R(2, "rec")>>, prog |-> << <<Stop(1), Stop(2)>>, <<Close, Close>> >>, fx |-> FALSE]
 \* no record is ever in flight when a channel is closed: the property must hold without any waiver
-ScN1 == [subs |-> <<"stream">>, pre |-> <<>>, prog |-> << <<Stop(1), Feed(1, "rec")>>, <<Stop(1), Close>> >>]
-ScN2 == [subs |-> <<"query">>, pre |-> <<>>, prog |-> << <<Feed(1, "done")>>, <<Close>> >>]
+ScN1 == [subs |-> <<"stream">>, pre |-> <<>>, prog |-> << <<Stop(1), Feed(1, "rec")>>, <<Stop(1), Close>> >>, fx |-> FALSE]
+ScN2 == [subs |-> <<"query">>, pre |-> <<>>, prog |-> << <<Feed(1, "done")>>, <<Close>> >>, fx |-> FALSE]
 MCAll == {ScA, ScB, ScC, ScD, ScE, ScF, ScG, ScN1, ScN2}
 MCQuick == {ScA, ScB, ScC, ScD, ScF, ScN1, ScN2}
 MCFinding == {ScA}
 MCNoFlight == {ScN1, ScN2}
+\* the same scenarios on the fixed-code variant: C28 must hold with no waiver (INVARIANT C28Strict)
+MCFixed == { [sc EXCEPT !.fx = TRUE] : sc \in MCAll }
+MCFixedQuick == { [sc EXCEPT !.fx = TRUE] : sc \in {ScA, ScC, ScD, ScF} }
 =============================================================================
